@@ -224,6 +224,7 @@ func c16J2T(w *W, sch *TSchema, desc *thrift.TypeDescriptor, val *TVal, wo write
 			}
 			if !bytes.Equal(r.Out, exp) {
 				facts["diff"] = diffShape(r.Out, exp)
+				facts["null_header_residue"] = fmt.Sprint(nullHeaderResidue(r.Out, exp, val, wo))
 				wo2 := wo
 				wo2.NoOptionalDefaultRule = true
 				exp2, _ := expectJ2T(nil, val, wo2)
